@@ -5,3 +5,4 @@ pub mod odom;
 pub mod props;
 pub mod util;
 pub mod minimise;
+pub mod tablegeo;
